@@ -171,7 +171,7 @@ structure Mat where
 deriving Repr, DecidableEq
 
 structure JS where
-  steps : Int
+  steps : Nat
   delta : Int
   f : Int
   g : Int
@@ -180,50 +180,48 @@ structure JS where
 /-- `i128::trailing_zeros` (128 for zero). -/
 def tz128 (g : Int) : Nat := CB.InvMod2k.tzNat 128 g.natAbs
 
-/-- one trip of the `loop { … }` in `jump`; `none` = `break`. -/
-def jumpBody (s : JS) : JS × Bool :=
-  let tzg : Int := (tz128 s.g : Nat)
-  let zeros : Int := if s.steps > tzg then tzg else s.steps              -- min(steps, g.trailing_zeros())
-  let z := zeros.toNat
-  let steps := s.steps - zeros
-  let delta := s.delta + zeros
-  let g := s.g / (2 : Int) ^ z                                            -- g >> zeros (i128, arithmetic)
-  let t00 := wrapI64 (s.t.t00 * (2 : Int) ^ z)                            -- t[0][0] << zeros
-  let t01 := wrapI64 (s.t.t01 * (2 : Int) ^ z)
-  let t10 := s.t.t10
-  let t11 := s.t.t11
-  if steps = 0 then (⟨steps, delta, s.f, g, ⟨t00, t01, t10, t11⟩⟩, false)
-  else
-    -- if delta > 0 { (delta, f, g) = (-delta, g as i64, -f as i128); (t[0], t[1]) = (t[1], -t[0]) }
-    let sw := decide (delta > 0)
-    let delta' := if sw then -delta else delta
-    let f' := if sw then wrapI64 g else s.f
-    let g' := if sw then -s.f else g
-    let u00 := if sw then t10 else t00
-    let u01 := if sw then t11 else t01
-    let u10 := if sw then -t00 else t10
-    let u11 := if sw then -t01 else t11
-    -- mask = (1 << min(min(steps, 1 - delta), 5)) - 1
-    let m1 : Int := if steps > 1 - delta' then 1 - delta' else steps
-    let m2 : Int := if m1 > 5 then 5 else m1
-    let mask : Nat := 2 ^ m2.toNat - 1
-    -- w = (g as i64).wrapping_mul(f.wrapping_mul(3) ^ 28) & mask
-    let w : Nat := ((toU64 g' * (((toU64 f' * 3) % U64) ^^^ 28)) % U64) &&& mask
-    -- t[1] = [t[0][0] * w + t[1][0], t[0][1] * w + t[1][1]];  g += w as i128 * f as i128
-    (⟨steps, delta', f', g' + (w : Int) * f', ⟨u00, u01, u00 * w + u10, u01 * w + u11⟩⟩, true)
+/-- the local `const fn min(a: i64, b: i64) -> i64 { if a > b { b } else { a } }` -/
+def imin (a b : Int) : Int := if a > b then b else a
 
+/-- `zeros = min(steps, g.trailing_zeros() as i64)` (both non-negative) -/
+def jzeros (s : JS) : Nat := if s.steps > tz128 s.g then tz128 s.g else s.steps
+
+/-- first part of a trip of `loop { … }`:
+    `(steps, delta, g) = (steps - zeros, delta + zeros, g >> zeros); t[0] = [t[0][0] << zeros, t[0][1] << zeros]`
+    (`<<` on `i64` wraps silently; `>>` on `i128` is arithmetic). -/
+def jumpShift (s : JS) : JS :=
+  ⟨s.steps - jzeros s, s.delta + (jzeros s : Nat), s.f, s.g / (2 : Int) ^ jzeros s,
+   ⟨wrapI64 (s.t.t00 * (2 : Int) ^ jzeros s), wrapI64 (s.t.t01 * (2 : Int) ^ jzeros s), s.t.t10, s.t.t11⟩⟩
+
+/-- `if delta > 0 { (delta, f, g) = (-delta, g as i64, -f as i128); (t[0], t[1]) = (t[1], [-t[0][0], -t[0][1]]); }` -/
+def jumpSwap (s : JS) : JS :=
+  if s.delta > 0 then
+    ⟨s.steps, -s.delta, wrapI64 s.g, -s.f, ⟨s.t.t10, s.t.t11, -s.t.t00, -s.t.t01⟩⟩
+  else s
+
+/-- `mask = (1 << min(min(steps, 1 - delta), 5)) - 1; w = (g as i64).wrapping_mul(f.wrapping_mul(3) ^ 28) & mask` -/
+def jumpW (s : JS) : Nat :=
+  let mask : Nat := 2 ^ (imin (imin (s.steps : Nat) (1 - s.delta)) 5).toNat - 1
+  ((toU64 s.g * (((toU64 s.f * 3) % U64) ^^^ 28)) % U64) &&& mask
+
+/-- `t[1] = [t[0][0] * w + t[1][0], t[0][1] * w + t[1][1]]; g += w as i128 * f as i128` -/
+def jumpAdd (s : JS) : JS :=
+  ⟨s.steps, s.delta, s.f, s.g + (jumpW s : Nat) * s.f,
+   ⟨s.t.t00, s.t.t01, s.t.t00 * (jumpW s : Nat) + s.t.t10, s.t.t01 * (jumpW s : Nat) + s.t.t11⟩⟩
+
+/-- the `loop { … if steps == 0 { break; } … }` with fuel -/
 def jumpLoop : Nat → JS → JS
   | 0, s => s
   | fuel + 1, s =>
-    let r := jumpBody s
-    if r.2 then jumpLoop fuel r.1 else r.1
+    if (jumpShift s).steps = 0 then jumpShift s
+    else jumpLoop fuel (jumpAdd (jumpSwap (jumpShift s)))
 
 /-- trips of the inner loop: every trip but the first consumes at least one of the 62 steps. -/
 def jumpFuel : Nat := CB.Extracted.safegcdJumpSteps + 2
 
 /-- `jump(f: &[u64], g: &[u64], delta) -> (i64, Matrix)`. -/
 def jump (f g : List Nat) (delta : Int) : Int × Mat :=
-  let s0 : JS := ⟨(CB.Extracted.safegcdJumpSteps : Nat), delta, wrapI64 (f.headD 0 : Nat), ((g.headD 0 : Nat) : Int),
+  let s0 : JS := ⟨CB.Extracted.safegcdJumpSteps, delta, wrapI64 (f.headD 0 : Nat), ((g.headD 0 : Nat) : Int),
                   ⟨1, 0, 0, 1⟩⟩
   let s := jumpLoop jumpFuel s0
   (s.delta, s.t)
@@ -260,10 +258,10 @@ structure DS where
 
 /-- one trip of the outer loop: `jump`, `fg`, `de`. -/
 def dsStep (f0 : List Nat) (inverse : Int) (s : DS) : DS :=
-  let (delta, m) := jump s.f s.g s.delta
-  let (f, g) := fg s.f s.g m
-  let (d, e) := de f0 inverse m s.d s.e
-  ⟨delta, f, g, d, e⟩
+  let j := jump s.f s.g s.delta
+  let r := fg s.f s.g j.2
+  let q := de f0 inverse j.2 s.d s.e
+  ⟨j.1, r.1, r.2, q.1, q.2⟩
 
 def dsLoop (f0 : List Nat) (inverse : Int) : Nat → DS → DS
   | 0, s => s
